@@ -8,7 +8,7 @@ COMMON_NOTE = (
 )
 SRC_NOTE = (
     "Source tie: lean/Mathy/Gen/PySrc.lean is regenerated on every run from the live Python source by the translator "
-    "harness/py2lean.py (20 decision functions: tokenizer character classes, printer predicates, classifiers of all 9 "
+    "harness/py2lean.py (21 decision functions: util.get_term_ex, tokenizer character classes, printer predicates, classifiers of all 9 "
     "rules); the Src_* theorems (Props/SrcTie*.lean) prove that the model computes what the translated source computes for "
     "all inputs; trusted there: the translator and the run-time library Model/PyRt.lean. "
 )
